@@ -8,6 +8,7 @@ import (
 	"net/http/httptest"
 	"sort"
 	"strings"
+	"sync"
 	"time"
 
 	"github.com/buildbuildio/pebbles"
@@ -93,10 +94,12 @@ type recPlanner struct {
 func (rp recPlanner) Plan(ctx *planner.PlanningContext) (*planner.QueryPlan, error) {
 	p, err := rp.inner.Plan(ctx)
 	tag := rp.env.tagOf(ctx)
+	rp.env.mu.Lock()
 	rp.env.plans[tag] = append(rp.env.plans[tag], p)
 	if err != nil {
 		rp.env.planErrs[tag] = err.Error()
 	}
+	rp.env.mu.Unlock()
 	return p, err
 }
 
@@ -107,7 +110,9 @@ type countingQueryer struct {
 }
 
 func (cq *countingQueryer) Query(rs []*requests.Request) ([]map[string]interface{}, error) {
+	cq.env.mu.Lock()
 	cq.env.calls = append(cq.env.calls, callRec{Tag: cq.tag, URL: cq.inner.URL(), N: len(rs), Reqs: rs})
+	cq.env.mu.Unlock()
 	return cq.inner.Query(rs)
 }
 func (cq *countingQueryer) Subscribe(r *requests.Request, c <-chan struct{}, ch chan *requests.Response) error {
@@ -116,6 +121,8 @@ func (cq *countingQueryer) Subscribe(r *requests.Request, c <-chan struct{}, ch 
 func (cq *countingQueryer) URL() string { return cq.inner.URL() }
 
 type fedEnv struct {
+	// mu guards what planner / queryer wrappers touch from gateway goroutines
+	mu    sync.Mutex
 	s     *sched.Sim
 	res   *Result
 	w     *gql.World
@@ -240,6 +247,8 @@ func (e *fedEnv) tagOf(ctx *planner.PlanningContext) string {
 	if ctx == nil || ctx.Request == nil {
 		return "?"
 	}
+	e.mu.Lock()
+	defer e.mu.Unlock()
 	if t, ok := e.reqTags[ctx.Request]; ok {
 		return t
 	}
@@ -391,7 +400,9 @@ func (e *fedEnv) post(client string, els []clientReq, batch bool) *clientResp {
 		}
 		pe[i].short = elKey(el.Query, el.OperationName, nil)
 	}
+	e.mu.Lock()
 	e.pending[client] = pe
+	e.mu.Unlock()
 	return e.postRaw(client, body, "application/json")
 }
 
